@@ -547,8 +547,78 @@ def matches_finding(prop, entry, case, obs, flags):
     return False
 
 
+def _all_forests(n):
+    """every forest on n labelled nodes with ordered child lists, as construction op lists"""
+    import itertools
+    out = []
+    for par in itertools.product([None] + list(range(n)), repeat=n):
+        ok = True
+        for x in range(n):
+            seen = set()
+            y = x
+            while y is not None and y not in seen:
+                seen.add(y)
+                y = par[y]
+            if y is not None:
+                ok = False
+                break
+        if not ok:
+            continue
+        kids = {p: [c for c in range(n) if par[c] == p] for p in range(n)}
+        orders = [list(itertools.permutations(kids[p])) for p in range(n)]
+        for combo in itertools.product(*orders):
+            ops = []
+            for p in range(n):
+                for c in combo[p]:
+                    ops.append(["SetParent", c, ["N", p], "none"])
+            out.append(ops)
+    return out
+
+
+def _all_ops(n, faults):
+    import itertools
+    ops = []
+    args = [["N", i] for i in range(n)] + [["None"], ["Junk"]]
+    for c in range(n):
+        for a in args:
+            for f in faults:
+                ops.append(["SetParent", c, a, f])
+    for p in range(n):
+        for k in range(0, n + 1):
+            for lst in itertools.permutations(range(n), k):
+                for f in faults:
+                    if f == "pre" and k > 1:
+                        continue
+                    ops.append(["SetChildren", p, "list", [["N", i] for i in lst], f])
+        ops.append(["SetChildren", p, "tuple", [["N", (p + 1) % n], ["N", (p + 1) % n]], "none"])
+        ops.append(["SetChildren", p, "list", [["N", (p + 1) % n], ["Junk"]], "none"])
+        ops.append(["SetChildren", p, "other", [], "none"])
+        ops.append(["DelChildren", p])
+        ops.append(["Sort", p, list(range(n, 0, -1)), False])
+        ops.append(["Sort", p, [0] * n, True])
+        ops.append(["Extend", p, [(p + 1) % n, (p + 2) % n], ["none", "none"]])
+    return ops
+
+
+def exhaustive(prop, n):
+    """small-scope exhaustive stratum: every forest on n nodes x every operation (one history each)"""
+    faults = ["none", "post", "pre"] if prop == "C02" else ["none", "post"]
+    ops = _all_ops(n, faults)
+    for build in _all_forests(n):
+        for o in ops:
+            yield {"cls": "BaseNode", "assert": True, "n": n, "names": ["a"] * n, "seps": ["/"] * n,
+                   "ops": build + [o], "stratum": f"exhaustive{n}"}
+
+
 def generate(prop, rng, tier):
     count = {"quick": 1400, "thorough": 12000, "search": 4000}[tier]
+    if tier == "thorough" and prop in ("C01", "C02"):
+        for n in (2, 3, 4):
+            for c in exhaustive(prop, n):
+                yield f"exhaustive/n{n}", c
+    elif tier == "quick" and prop in ("C01", "C02"):
+        for c in exhaustive(prop, 3):
+            yield "exhaustive/n3", c
     if prop == "C20":
         count = {"quick": 700, "thorough": 6000, "search": 2000}[tier]
     fr = {"C01": 0.08, "C02": 0.4, "C03": 0.1, "C20": 0.0}[prop]
